@@ -136,27 +136,37 @@ def build_driver(snap, drv_c, srcs, name, extra=(), libs=()):
 
 def regen(snap):
     """Regenerate coq/Gen/*.v from the snapshot (files are rewritten only when their content changes,
-    so an unchanged tree costs nothing in `make`)."""
-    gen = os.path.join(VERIF, 'harness', 'gen')
-    os.makedirs(os.path.join(COQ, 'Gen'), exist_ok=True)
-    msgs = []
+    so an unchanged tree costs nothing in `make`).  The snapshot is remembered: coq_make() regenerates again under the
+    same lock hold as its `make`, so that a concurrent run against another tree (a seeded change) cannot slip its
+    generated files in between."""
+    LAST_SNAP[:] = [snap]
     with CoqLock():
-        for script, args in (('tables.py', [os.path.join(snap, 'raid/tables.c'), os.path.join(COQ, 'Gen/Tables.v')]),
-                             ('crc.py', [os.path.join(snap, 'cmdline/util.c'), os.path.join(COQ, 'Gen/CrcTables.v')]),
-                             ('consts.py', [snap, os.path.join(COQ, 'Gen/Consts.v')]),
-                             ('x86asm.py', [snap, os.path.join(COQ, 'Gen/X86Progs.v')]),
-                             ('x86asm_rec.py', [snap, os.path.join(COQ, 'Gen/X86RecProgs.v')]),
-                             ):
-            p = os.path.join(gen, script)
-            if not os.path.exists(p):
-                continue
-            r = run([sys.executable, p] + args)
-            if r.returncode != 0:
-                msgs.append('%s: %s' % (script, r.stdout.strip()[-300:]))
+        msgs = _regen_nolock(snap)
     REGEN_ERRORS[:] = msgs
     return msgs
 
 
+def _regen_nolock(snap):
+    gen = os.path.join(VERIF, 'harness', 'gen')
+    os.makedirs(os.path.join(COQ, 'Gen'), exist_ok=True)
+    msgs = []
+    for script, args in (('tables.py', [os.path.join(snap, 'raid/tables.c'), os.path.join(COQ, 'Gen/Tables.v')]),
+                         ('crc.py', [os.path.join(snap, 'cmdline/util.c'), os.path.join(COQ, 'Gen/CrcTables.v')]),
+                         ('consts.py', [snap, os.path.join(COQ, 'Gen/Consts.v')]),
+                         ('x86asm.py', [snap, os.path.join(COQ, 'Gen/X86Progs.v')]),
+                         ('x86asm_rec.py', [snap, os.path.join(COQ, 'Gen/X86RecProgs.v')]),
+                         ('intc.py', [snap, os.path.join(COQ, 'Gen/IntProgs.v')]),
+                         ):
+        p = os.path.join(gen, script)
+        if not os.path.exists(p):
+            continue
+        r = run([sys.executable, p] + args)
+        if r.returncode != 0:
+            msgs.append('%s: %s' % (script, r.stdout.strip()[-300:]))
+    return msgs
+
+
+LAST_SNAP = []
 REGEN_ERRORS = []
 
 
@@ -188,6 +198,8 @@ def coq_project():
 def coq_make(targets, timeout=1500):
     """make -k the given .vo targets (full .vo builds).  Returns (ok, log)."""
     with CoqLock():
+        if LAST_SNAP and os.path.isdir(LAST_SNAP[0]):
+            REGEN_ERRORS[:] = _regen_nolock(LAST_SNAP[0])
         coq_project()
         if not os.path.exists(os.path.join(COQ, 'Makefile.coq')) or \
                 os.path.getmtime(os.path.join(COQ, 'Makefile.coq')) < os.path.getmtime(os.path.join(COQ, '_CoqProject')):
